@@ -95,6 +95,11 @@ func Shard() (int, int) {
 }
 
 func Begin(prop, name, level, rule string) *Layer {
+	if os.Getenv("VERIF_FREE") == "1" {
+		// the free-running -race pass of an E1 harness reports separately
+		name += ".race"
+		rule = "free-running pass of the same bodies under the race detector (a monitor, not the deciding exploration)"
+	}
 	si, sn := Shard()
 	if sn > 1 {
 		name = fmt.Sprintf("%s.shard%02d", name, si)
@@ -170,9 +175,30 @@ func (l *Layer) ForceSample(v interface{}) {
 	l.mu.Unlock()
 }
 
-func (l *Layer) AddStates(n int64)      { l.mu.Lock(); l.States += n; l.mu.Unlock() }
-func (l *Layer) AddTransitions(n int64) { l.mu.Lock(); l.Transitions += n; l.mu.Unlock() }
-func (l *Layer) AddTraces(n int64)      { l.mu.Lock(); l.Traces += n; l.mu.Unlock() }
+func free() bool { return os.Getenv("VERIF_FREE") == "1" }
+
+// states/transitions are those of the controlled exploration; the free-running pass counts only executions
+func (l *Layer) AddStates(n int64) {
+	if !free() {
+		l.mu.Lock()
+		l.States += n
+		l.mu.Unlock()
+	}
+}
+func (l *Layer) AddTransitions(n int64) {
+	if !free() {
+		l.mu.Lock()
+		l.Transitions += n
+		l.mu.Unlock()
+	}
+}
+func (l *Layer) AddTraces(n int64) {
+	if !free() {
+		l.mu.Lock()
+		l.Traces += n
+		l.mu.Unlock()
+	}
+}
 func (l *Layer) Cap(s string)           { l.mu.Lock(); l.Caps = append(l.Caps, s); l.mu.Unlock() }
 func (l *Layer) Assume(s string)        { l.mu.Lock(); l.Assumptions = append(l.Assumptions, s); l.mu.Unlock() }
 func (l *Layer) Set(k string, v interface{}) {
